@@ -20,6 +20,27 @@ PROPS = {
         "partial": [],
         "assumptions": ["string lengths and update counts below 2^64 (always true of Go values)"],
     },
+    "C15": {
+        "module": "GtfsVerif.Props.C15",
+        "trusted_base": JOURNAL_TB,
+        "partial": ["UID injectivity is proved only for suffixes that do not start with a digit (C15_uid_injective_partial); the full statement is false of the code's \"%d%s\" format: C15_uid_collision proves the witness (100,\"5\") vs (1005,\"\"), replayed on the implementation on every run as known finding D17",
+                    "accounting is proved as a refinement of Trip.update / Trip.markPast to the abstract Account (assigned, numUpdates, lastObs, past) plus the per-UID closed form of a feed; the closed-form 'time of the first feed lacking the trip' over whole histories is checked by the oracle on the implementation, not restated as one theorem"],
+        "assumptions": [],
+    },
+    "C19": {
+        "module": "GtfsVerif.Props.C19",
+        "trusted_base": ["modelled: DirectoryGtfsrtSource.Next as Gtfs.Journal.dirSource (sorted listing, filterMap of read-then-parse); sort.Strings as List.mergeSort on bytewise order",
+                         "outside the model (named, exercised on real directories only): os.ReadDir, os.ReadFile, the file system, ParseRealtime's own error behaviour on corrupt bytes"],
+        "partial": ["the file system is not modelled: which entries are unreadable is an input of the model; real directories with sub-directories, vanished files, dangling symlinks, empty/truncated/corrupt files are exercised by the correspondence", "unreadable-by-permission files are not exercised (the harness runs as root)"],
+        "assumptions": ["directory entry names are distinct (true of any directory)"],
+    },
+    "C20": {
+        "module": "GtfsVerif.Props.C20",
+        "trusted_base": JOURNAL_TB + ["modelled, differentially validated byte for byte: text/template rendering of trips.csv.tmpl and stop_times.csv.tmpl as Gtfs.Journal.tripsCsv / stopTimesCsv",
+                                      "read-back in the theorems is splitting at LF then at commas; that this coincides with encoding/csv on quote-free, CR-free text is checked by the oracle, which reads every export back with encoding/csv"],
+        "partial": ["a stop-time row whose seven cells were all empty cannot occur (trip_uid and last_observed are never empty)"],
+        "assumptions": [],
+    },
     "C14": {
         "module": "GtfsVerif.Props.C14",
         "trusted_base": JOURNAL_TB,
@@ -29,6 +50,21 @@ PROPS = {
 }
 
 MANIFEST_TEXT = {
+    "C15": {
+        "text": "Theorems over the BuildJournal model for all histories and windows: output strictly increasing in UID (keys of the state are distinct and every entry's UID is its key, by induction over feeds; mergeSort sortedness), selection = assigned and start in [lo,hi], Trip.update/markPast refine the abstract account (count, last observed, marked-past set once, unassigned updates ignored after assignment, assignment monotone), UID injective for non-digit-leading suffixes; the counterexample to full UID injectivity is proved and kept as known finding D17. Tied to journal.go by comparing every prefix x window of generated histories; an independent accounting oracle checks the implementation.",
+        "note": "Trusted: Lean kernel, correspondence harness. Known finding D17 (UID collision when the suffix starts with a digit) is listed in KNOWN_FINDINGS.jsonl and reproduced by a dedicated probe on every run.",
+        "technique": "Lean 4 proof (state invariants by induction over feeds, refinement to an abstract account) + differential correspondence with journal.BuildJournal",
+    },
+    "C19": {
+        "text": "Theorems over the directory-source model for all listings and all read/parse outcomes: the yielded sequence is the filterMap of the bytewise-sorted listing, one value per good file, bad entries are inert (sorting commutes with filtering, by uniqueness of sorted permutations), hence the journal over the directory equals the journal over its good files. The model is compared with DirectoryGtfsrtSource on real directories containing every fault kind.",
+        "note": "Partial by nature: the file system and ParseRealtime's error paths are exercised, not proved. Trusted: Lean kernel, harness, os package.",
+        "technique": "Lean 4 proof over a model of the source loop + fault-directory correspondence",
+    },
+    "C20": {
+        "text": "Theorems for all journals free of CSV metacharacters: both tables split back (LF, then commas) into exactly the header and one row per trip / stop time in journal order with exactly the entry's cells (decimal round trip proved, direction 0/1/blank), each stop-time row keyed by its trip's UID. The rendering model is compared byte for byte with ExportToCsv and every export is read back with encoding/csv by the oracle.",
+        "note": "Trusted: Lean kernel, harness, text/template (modelled by a hand-written renderer validated byte for byte), encoding/csv in the oracle.",
+        "technique": "Lean 4 proof (join/split inverse, decimal round trip) + byte-level correspondence with ExportToCsv",
+    },
     "C13": {
         "text": "The encoder model is regenerated from hash.go on every run; Lean proves, for all pairs of trips (vehicles), that the hash input streams are equal iff all data fields are equal: prefix-injectivity of the generated combinator expression by instance resolution, and injectivity of the generated field tuple (every data field is written). The generated encoder is compared byte for byte with the real Hash output, and pair oracles (one-field differences, nil vs zero, string boundary shift, update count, presentation-only differences) run on the implementation.",
         "note": "Trusted: Lean kernel, the hash-body translator (validated by byte comparison each run), encoding/binary and the supplied hash.Hash. The digest function itself (collisions of e.g. SHA-256) is out of scope: the property is about the hash input.",
